@@ -56,7 +56,9 @@ func c12ClientGen(t *rapid.T) c12ClientCase {
 }
 
 func c12DocJSON(i int, d c12DocSpec) map[string]any {
-	key := func(id string) string { return spec.Base64Bytes(fmt.Sprintf("%-32.32s", fmt.Sprint(i, "/", d.Server, "/", id))).Encode() }
+	key := func(id string) string {
+		return spec.Base64Bytes(fmt.Sprintf("%-32.32s", fmt.Sprint(i, "/", d.Server, "/", id))).Encode()
+	}
 	verify, old, sigs := map[string]any{}, map[string]any{}, map[string]any{}
 	for _, id := range d.Verify {
 		verify[id] = map[string]any{"key": key(id)}
